@@ -91,24 +91,33 @@ deriving DecidableEq, Repr
 def FeeBranch.name : FeeBranch → String
   | .targetZero => "target0" | .rebateZero => "rebate-to-0" | .rebate => "rebate" | .tax => "tax" | .taxCapped => "tax-capped"
 
-/-- `get_fee_basis_points` given the target amount -/
-def feeBpsCore (cx : NumCtx) (initial usdgAmount target : Rat) (increase : Bool) : Rat × FeeBranch :=
+/-- `a - b if a > b else b - a` -/
+def absDiff (cx : NumCtx) (a b : Rat) : Rat := if a > b then cx.sub a b else cx.sub b a
+
+/-- `next_amount` of `get_fee_basis_points` -/
+def nextAmount (cx : NumCtx) (initial usdgAmount : Rat) (increase : Bool) : Rat :=
+  if increase then cx.add initial usdgAmount
+  else if usdgAmount > initial then 0 else cx.sub initial usdgAmount
+
+/-- the rebate / tax part of `get_fee_basis_points`, given both distances from the (non-zero) target -/
+def feeFromDiffs (cx : NumCtx) (initialDiff nextDiff target : Rat) : Rat × FeeBranch :=
   let base : Rat := Gen.gmxMintBurnFeeBps
   let tax : Rat := Gen.gmxTaxBps
-  let next := if increase then cx.add initial usdgAmount
-              else if usdgAmount > initial then 0 else cx.sub initial usdgAmount
-  if target = 0 then (base, .targetZero) else
-  let initialDiff := if initial > target then cx.sub initial target else cx.sub target initial
-  let nextDiff := if next > target then cx.sub next target else cx.sub target next
   if nextDiff < initialDiff then
     let rebate := cx.div (cx.mul tax initialDiff) target
     if rebate > base then (0, .rebateZero) else (cx.sub base rebate, .rebate)
   else
     let avg := cx.div (cx.add initialDiff nextDiff) 2
-    let capped := decide (avg > target)
-    let avg := if capped then target else avg
-    let taxBps := cx.div (cx.mul tax avg) target
-    (base + (truncInt taxBps : Rat), if capped then .taxCapped else .tax)
+    if avg > target then
+      (base + (truncInt (cx.div (cx.mul tax target) target) : Rat), .taxCapped)
+    else
+      (base + (truncInt (cx.div (cx.mul tax avg) target) : Rat), .tax)
+
+/-- `get_fee_basis_points` given the target amount -/
+def feeBpsCore (cx : NumCtx) (initial usdgAmount target : Rat) (increase : Bool) : Rat × FeeBranch :=
+  if target = 0 then ((Gen.gmxMintBurnFeeBps : Rat), .targetZero) else
+  let next := nextAmount cx initial usdgAmount increase
+  feeFromDiffs cx (absDiff cx initial target) (absDiff cx next target) target
 
 /-- `get_fee_basis_points(token, usdg_amount, increase)` -/
 def feeBps (cx : NumCtx) (env : Env) (tok : String) (usdgAmount : Rat) (increase : Bool) : Except Err (Rat × FeeBranch) :=
